@@ -56,7 +56,10 @@ _FN: Optional[Callable[[Any], Dict[str, Any]]] = None
 def _call(arg):
     quiet()
     try:
-        return _FN(arg)
+        import contextlib, io
+
+        with contextlib.redirect_stdout(io.StringIO()):  # the library prints progress text
+            return _FN(arg)
     except Exception as e:  # an exception in the harness itself is a checker crash, not a violation
         return {"harness_error": f"{type(e).__name__}: {e}", "trace": traceback.format_exc()[-1500:], "arg": repr(arg)[:300]}
 
